@@ -24,8 +24,8 @@ ASSUME = ["canonical values are taken from the implementation itself on fresh re
 TB = ["coqc 8.16.1 kernel", "the cache model abstracts pure computations (M_Cache); histories are mapped to P_Cache.canon_run by the harness and "
       "re-evaluated in Coq (check_cache_history)"]
 
-OPS = ["times", "lonlat", "counts", "telemetry", "calibrated", "cal_dataset", "dataset", "angles", "qual", "mask", "meta", "save"]
-COORD = {"lonlat", "calibrated", "cal_dataset", "dataset", "angles", "save"}
+OPS = ["times", "lonlat", "counts", "telemetry", "calibrated", "cal_dataset", "dataset", "angles", "qual", "mask", "meta", "save", "save_cut"]
+COORD = {"lonlat", "calibrated", "cal_dataset", "dataset", "angles", "save", "save_cut"}
 
 
 def digest(x):
@@ -84,10 +84,10 @@ def observe(r, op, scratch):
         m = r.meta_data
         return ("midnight_scanline" in m, m.get("midnight_scanline"), None if "missing_scanlines" not in m else [int(x) for x in m["missing_scanlines"]],
                 m.get("sun_earth_distance_correction_factor")), []
-    if op == "save":
+    if op in ("save", "save_cut"):
         out = os.path.join(scratch, "save_%d" % np.random.randint(1 << 30))
         os.makedirs(out)
-        r.save(0, 0, output_dir=out + "/")
+        r.save(0 if op == "save" else 7, 0, output_dir=out + "/")
         return sorted(f.split("_99999_")[0].split("_")[1] for f in os.listdir(out)), []
     raise ValueError(op)
 
@@ -175,9 +175,14 @@ def run(res, tier, seed):
                                                 earlier="canonical runs of configurations 0..%d in this process" % (i - 1))))
                 res.add_case(("fresh", i, op, after), i > 0, dict(reader=i, operation=op, fresh_process=True))
         nh = 5 if tier == "quick" else 40
-        for h in range(nh):
-            k = rng.choice([1, 2, 3])
-            chosen = rng.sample(range(len(configs)), k)
+        # scripted histories run first (call orders that matter for the caches: repeated cut saves around a meta read on the
+        # pass that crosses midnight; counts / telemetry / dataset after a calibration), then random ones
+        scripts = [(0, ["lonlat", "meta", "save_cut", "meta", "save_cut", "meta", "dataset", "save"]),
+                   (1, ["calibrated", "counts", "telemetry", "dataset", "save_cut", "meta", "angles", "lonlat"])]
+        for h in range(nh + len(scripts)):
+            script = scripts[h] if h < len(scripts) else None
+            k = 1 if script else rng.choice([1, 2, 3])
+            chosen = [script[0]] if script else rng.sample(range(len(configs)), k)
             srcs = [bytes(configs[i][1]) for i in chosen]
             hashes_before = [hashlib.sha1(b).hexdigest() for b in srcs]
             readers = []
@@ -190,9 +195,9 @@ def run(res, tier, seed):
             live = []
             hist = []
             codes = []
-            for step in range(rng.randint(6, 14)):
+            for step in range(len(script[1]) if script else rng.randint(6, 14)):
                 j = rng.randrange(k)
-                op = rng.choice(OPS if tier == "thorough" or rng.random() < 0.85 else ["save"])
+                op = script[1][step] if script else rng.choice(OPS if tier == "thorough" or rng.random() < 0.8 else ["save", "save_cut", "meta"])
                 if rng.random() < 0.25:
                     try:
                         pygac.get_reader_class("other", fileobj=io.BytesIO(other_file))
@@ -234,7 +239,7 @@ def run(res, tier, seed):
             # the cache model on this history, per reader: which variant (before / after the coordinate computation) each
             # times / meta observation showed
             names = {"times": "OpTimes", "lonlat": "OpLonLat", "dataset": "OpDataset", "cal_dataset": "OpCalibrated",
-                     "calibrated": "OpCalibrated", "angles": "OpAngles", "meta": "OpMetaRead", "save": "OpSave"}
+                     "calibrated": "OpCalibrated", "angles": "OpAngles", "meta": "OpMetaRead", "save": "OpSave", "save_cut": "OpSave"}
             for ri in chosen:
                 mine = [(names[o], c) for (rj, o, c) in codes if rj == ri and o in names]
                 drift = canon[ri][("times", False)] != canon[ri][("times", True)]
